@@ -21,6 +21,8 @@ let parse_cfg fixed s =
       ({ ns_nstart = zi n; ns_maxrt = zi r; ns_udp = (u = "1"); ns_fixed = fixed }, e = "1")
   | _ -> failwith "ns cfg"
 
+let is_err_op s = (s = "E")
+
 let parse_op s : int * ns_ev =
   let a = split_commas (rest s) in
   match s.[0], a with
@@ -40,6 +42,7 @@ let show_msg m =
 let show_out o =
   match o with
   | NsTx m | NsRe m -> Some (show_msg m)
+  | NsErrW m -> Some ("E" ^ String.sub (show_msg m) 1 (String.length (show_msg m) - 1))
   | NsAcc -> Some "A"
   | NsRef -> Some "X"
   | NsNack (r, mid, hp) ->
@@ -55,14 +58,19 @@ let ns toks =
       let n = int_of_string nsess in
       let (cfgs, ops) = take_n n tl in
       let cfgs = Array.of_list (List.map (parse_cfg (fx = "1")) cfgs) in
-      let cf (k : z) = fst cfgs.(max 0 (min (n - 1) (int_of_z k))) in
-      let ctx = ref (fun (k : z) -> ns_init (snd cfgs.(max 0 (min (n - 1) (int_of_z k))))) in
+      let st = Array.init n (fun k -> ns_init (snd cfgs.(k))) in
+      let wfail = ref false in        (* the next socket write of the context fails *)
       let b = Buffer.create 256 in
       List.iteri (fun i op ->
-        let (sid, ev) = parse_op op in
-        let (c', outs) = ns_cstep cf !ctx (z_of_int sid) ev in
-        ctx := c';
-        let items = List.filter_map show_out outs in
+        let items =
+          if is_err_op op then (wfail := true; [])
+          else begin
+            let (sid, ev) = parse_op op in
+            let (x', outs) = nsf_step (fst cfgs.(sid)) { nsf_s = st.(sid); nsf_wfail = !wfail } (NsfEv ev) in
+            st.(sid) <- x'.nsf_s;
+            wfail := x'.nsf_wfail;
+            List.filter_map show_out outs
+          end in
         if i > 0 then Buffer.add_char b ' ';
         Buffer.add_string b (Printf.sprintf "%d:%s" i (String.concat "," items))) ops;
       Buffer.contents b
@@ -87,6 +95,12 @@ let parse_items seen s : ns_out list =
       match String.split_on_char '.' (rest it) with
       | [r; mid; hp] -> Some (NsNack (zi r, zi mid, hp = "1"))
       | _ -> failwith "ns item N"
+    end
+    else if it.[0] = 'E' then begin
+      let con = it.[1] = 'c' in
+      match String.split_on_char '.' (String.sub it 2 (String.length it - 2)) with
+      | [mid; tok] -> Some (NsErrW { ns_con = con; ns_mid = zi mid; ns_tok = zi tok })
+      | _ -> failwith "ns item E"
     end
     else failwith ("ns item " ^ it)) (split_commas s)
 
@@ -120,4 +134,36 @@ let nsmon toks =
       if !bad = [] then "ok" else String.concat " " !bad
   | _ -> failwith "nsmon args"
 
-let () = register "ns" ns; register "nsmon" nsmon
+(* nsbound <nsess> <cfg>*nsess { <op> <items|-> }* : bound-only checker for histories with
+   failing socket writes (op E = the next write fails) *)
+let nsbound toks =
+  match toks with
+  | nsess :: tl ->
+      let n = int_of_string nsess in
+      let (cfgs, rest_) = take_n n tl in
+      let cfgs = Array.of_list (List.map (parse_cfg true) cfgs) in
+      let traces = Array.make n [] in
+      let seen = Array.init n (fun _ -> Hashtbl.create 16) in
+      let idx = Array.make n [] in
+      let rec go i l =
+        match l with
+        | [] -> ()
+        | op :: items :: r ->
+            if not (is_err_op op) then begin
+              let (sid, ev) = parse_op op in
+              traces.(sid) <- (NsfEv ev, parse_items seen.(sid) items) :: traces.(sid);
+              idx.(sid) <- i :: idx.(sid)
+            end;
+            go (i + 1) r
+        | _ -> failwith "nsbound: odd tokens" in
+      go 0 rest_;
+      let bad = ref [] in
+      for k = n - 1 downto 0 do
+        match nsb_run (fst cfgs.(k)) [] (List.rev traces.(k)) Z0 with
+        | None -> ()
+        | Some j -> bad := Printf.sprintf "bad sid=%d op=%d" k (List.nth (List.rev idx.(k)) (int_of_z j)) :: !bad
+      done;
+      if !bad = [] then "ok" else String.concat " " !bad
+  | _ -> failwith "nsbound args"
+
+let () = register "ns" ns; register "nsmon" nsmon; register "nsbound" nsbound
